@@ -7,6 +7,6 @@ SNAP=$(mktemp -d /tmp/verif_snap.XXXXXX)
 rsync -a --exclude .git --exclude replays --exclude __pycache__ /verif/ $SNAP/
 (cd $SNAP && /venv/bin/python tools/seed_eval.py "$@")
 rc=$?
-rsync -a --exclude candidates --exclude candidates2 --exclude candidates3 --exclude candidates4 --exclude candidates5 --exclude candidates6 --exclude candidates7 $SNAP/seeded/ /verif/seeded/
+rsync -a --exclude candidates --exclude candidates2 --exclude candidates3 --exclude candidates4 --exclude candidates5 --exclude candidates6 --exclude candidates7 --exclude candidates8 $SNAP/seeded/ /verif/seeded/
 rm -rf $SNAP
 exit $rc
